@@ -694,6 +694,14 @@ int reftable_addition_add(struct reftable_addition *add,
 		goto done;
 	}
 
+	if (wr->max_update_index < wr->min_update_index ||
+	    wr->max_update_index == UINT64_MAX) {
+		/* inverted limits, or no update index left for the next
+		   table */
+		err = REFTABLE_API_ERROR;
+		goto done;
+	}
+
 	format_name(&next_name, wr->min_update_index, wr->max_update_index);
 	strbuf_addstr(&next_name, ".ref");
 
